@@ -14,6 +14,14 @@ CHECKS = {
              '(function, D, P, shape, real/complex, sparse/dense) cells per run; does not prove absence.',
         note='trusts mpmath (50+ digits), NumPy/SciPy; tolerance 1e-9 relative (hyperu 1e-6); D <= 10, P <= 4, rank <= 3',
         ref='DESIGN.md section 4, C01'),
+    'C03': dict(
+        technique='property-based testing (Hypothesis, concolic program generation): duality pairing <xbar,v> = <ybar,F\'(x)v> mod t^D with F\'(x)v from forward mode only (2D-shift)',
+        text='Generated-input search over straight-line programs of the differentiable API (single-operation buckets for every operation '
+             'family + random compositions), recorded by the tracer, evaluated on Taylor curves with different base points per direction, '
+             'dense non-symmetric adjoint seeds; the reverse sweep is compared order by order with a forward-only reference.',
+        note='forward mode at degree 2D is the reference (validated by C01/C02/C07/C08/C12); tolerance 1e-8 relative to term magnitudes; '
+             'D <= 4, P <= 3, programs <= 10 instructions, operands rank <= 2 and sides <= 3',
+        ref='DESIGN.md section 4, C03'),
 }
 
 NOT_BUILT = 'check not built yet in this session (planned, see DESIGN.md section 4)'
